@@ -477,7 +477,39 @@ fn run_case(kind: &str, l: &[Sx]) -> String {
             } else {
                 "n/a"
             };
-            let o05x = if !has_if_then3(&orig) { if same_res(&before, &after) { "holds" } else { "FAILS" } } else { "n/a" };
+            let mut o05x = if !has_if_then3(&orig) { if same_res(&before, &after) { "holds" } else { "FAILS" } } else { "n/a" };
+            // ... "under every variable binding, defined or not": the tree optimized under THIS binding, executed under other bindings of the same variables
+            // (every value replaced by another one of its kind, by one of another kind, and all variables unbound)
+            if st.is_ok() {
+                for mode in 0..3 {
+                    let mut env2 = scripted_env(&l[2], &l[3]);
+                    let names: Vec<String> = env2.vars.keys().cloned().collect();
+                    for n in names {
+                        let old = env2.vars.get(&n).cloned().unwrap();
+                        let nv = match (mode, old.as_ref()) {
+                            (0, Value::Number(x)) => Some(Value::Number(if x.is_finite() { *x * 2.0 + 1.5 } else { 3.0 })),
+                            (0, Value::String(t)) => Some(Value::String(format!("{t}x"))),
+                            (0, Value::Boolean(b)) => Some(Value::Boolean(!*b)),
+                            (0, Value::Array(a)) => Some(Value::Array(a.iter().cloned().chain([Value::Number(9.0)]).collect())),
+                            (1, Value::Number(_)) => Some(Value::String("q".into())),
+                            (1, Value::String(_)) => Some(Value::Number(10.0)),
+                            (1, Value::Boolean(_)) => Some(Value::Array(vec![])),
+                            (1, Value::Array(_)) => Some(Value::Boolean(true)),
+                            _ => None,
+                        };
+                        match nv {
+                            Some(v) => { env2.vars.insert(n, Rc::new(v)); }
+                            None => { env2.vars.remove(&n); }
+                        }
+                    }
+                    let b2 = execute(&env2, &orig);
+                    let a2 = execute(&env2, &e);
+                    let ok = if !has_if_then3(&orig) { same_res(&b2, &a2) } else { b2.is_err() || check_variables_and_functions(&env2, &orig).is_err() || same_res(&b2, &a2) };
+                    if !ok {
+                        o05x = "FAILS";
+                    }
+                }
+            }
             // O06: no lookups, no impure calls, fixpoint, nothing foldable left, not more nodes
             let lookups = trace.iter().any(|t| t.starts_with('L'));
             let mut e2 = e.clone();
